@@ -9,24 +9,24 @@ EXTENDED = {
            'as named type, in-line and nested, read from the descriptors; explicit redeclarations with the derived flag of every instance attribute; names with consecutive underscores; renamed aggregate types with their element type; the width/FIXED of a defined type\'s description; entities with single-valued inverse attributes only and the inverted attribute as resolved by the dictionary; multi-schema files are generated AND compiled (interface families, interfaced items of every kind); shapes in schemas of their own (named two-dimensional aggregates, named aggregates of selects and enumerations, a select of two aggregates of one kind)',
     'C03': 'a literal of the wrong kind inside every typed select value; string literals containing ; ) , as wrong-kind values; garbage after $; undeclared enumeration items that abbreviate or extend a declared one, inside selects and aggregates; references whose id wraps to an existing one in 32/64 bits; dangling references (entity and select) in a file appended to a session that holds the id; the library\'s names of states (.UNSET., .UNKNOWN., .TRUE., .FALSE.) as items',
     'C04': 'an undefined name at every bare reference in every expression; an attribute clash with an ancestor 1-3 levels up / a second supertype / a diamond; three-schema USE/REFERENCE '
-           'chains with renames and cycles under every assignment of schema names; select cycles with entity members; which attribute names an entity may mention (5 entities x 5 owners x 6 kinds of mention); one item along two interface paths / two items under one alias; one schema per parametrised diagnostic of the front end; whole-schema USE/REFERENCE; one name declared twice by declarations of different kinds (25 ordered pairs); attribute access and indexing through ALIAS variables; circular subtype graphs of 1-3 entities with another entity hanging off them (72 texts)',
+           'chains with renames and cycles under every assignment of schema names; select cycles with entity members; which attribute names an entity may mention (5 entities x 5 owners x 6 kinds of mention); one item along two interface paths / two items under one alias; one schema per parametrised diagnostic of the front end; whole-schema USE/REFERENCE; one name declared twice by declarations of different kinds (25 ordered pairs); attribute access and indexing through ALIAS variables; circular subtype graphs of 1-3 entities with another entity hanging off them (72 texts); every digraph on three selects / three entities naming each other under every order of declaration (invalid exactly when cyclic)',
     'C05': 'every comment body up to length 3 (5) cut off by the end of file and closed, at four places; a repeated instance name in exchange and working-session files under all state pairs; a crash or hang is located from the number of answers received, exploration stops after 4 reports per job; degenerate values in every parameter of the three header entities',
-    'C06': 'texts of 50 kB - 1 MB in one WHERE/DERIVE/FUNCTION/RULE; the three-schema interface family; unexplained signals are located with gdb; every built-in function/procedure with 0-3 arguments; 19 CASE label forms; an index applied to every kind of type; identifiers ending in \'_\'; the diagnostic catalogue, visibility and interface-path schemas; the multi-schema interfaced-item family; two consecutive and nested ALIAS statements; ALIAS variables used with .attr and [i]; circular subtype graphs with an entity hanging off them; hung cases are re-run together',
+    'C06': 'texts of 50 kB - 1 MB in one WHERE/DERIVE/FUNCTION/RULE; the three-schema interface family; unexplained signals are located with gdb; every built-in function/procedure with 0-3 arguments; 19 CASE label forms; an index applied to every kind of type; identifiers ending in \'_\'; the diagnostic catalogue, visibility and interface-path schemas; the multi-schema interfaced-item family; two consecutive and nested ALIAS statements; ALIAS variables used with .attr and [i]; circular subtype graphs with an entity hanging off them; every reference digraph on three selects / three entities; string literals with adjacent apostrophes; hung cases are re-run together',
     'C07': 'all formal parameter lists of 1-3 parameters x {VAR, value} x 3 types; real literals for 6 mantissas x exponents -40..40; every ordered pair of relational operators in both groupings; algorithms without parameters; REAL/STRING/BINARY widths and FIXED in every declaration kind; intervals compared beyond the rewriting the printer applies; interfaced aliases; integer literals beyond 32 bits',
     'C08': 'a subtype of two separately constrained hierarchies; three-branch two-level trees; a set that lacks a supertype of a member is judged even when disconnected; several multiply-inheriting entities with different sets of root hierarchies',
-    'C09': 'every comment body up to length 3 over * / c blank between the token and its delimiter; references that wrap to an existing id; every ordered pair of literals read into ONE attribute object compared with the second read alone',
-    'C10': 'dependencies and forward table re-queried after every load history; a comment at every token boundary of simple and complex instances; keyword followed by newline/tab; reference chains of 63-300 instances loaded from either end; (thorough) every kind assignment NODE/HOLDER/complex on 3 instances, all functional graphs on 4; a report of the undefined-behaviour sanitizer alone is re-judged on the plain build; zero-padded instance names; instances not in ascending order of their names',
+    'C09': 'every comment body up to length 3 over * / c blank between the token and its delimiter; the ISO 8859 escape at the beginning, in the middle and at the end of a string; every ordered pair of 14 boundary integers as elements of a LIST / ARRAY, read and written back; references that wrap to an existing id; every ordered pair of literals read into ONE attribute object compared with the second read alone',
+    'C10': 'dependencies and forward table re-queried after every load history; a comment at every token boundary of simple and complex instances; keyword followed by newline/tab; reference chains of 63-300 instances loaded from either end; (thorough) every kind assignment NODE/HOLDER/complex on 3 instances, all functional graphs on 4; a report of the undefined-behaviour sanitizer alone is re-judged on the plain build; zero-padded instance names; instances not in ascending order of their names; an own comment per instance (a comment shown with an instance is the eager reader\'s comment for it)',
     'C11': '12 INVERSE shapes (inverse two levels up, through a second supertype, multiple inheritance on referrer and target side, single+aggregate referrer); histories that load referrers first; an entity that is its own referrer (self references, all digraphs on 1-3 nodes); two inverse attributes of one name inherited from two supertypes; the look-up by descriptor; inverted attributes of defined and renamed aggregate types; an inverse FOR an attribute that the named entity inherits',
     'C12': 'exppp without -o (output named after the schema, repeated in one directory); aggregate bounds that are expressions; string literals full of printf conversions in every place a literal can stand; integer literals around 2^31, 2^32, 2^63, 2^64; multi-pass multi-schema inputs (repeated in one directory)',
     'C13': 'look-up names that are proper prefixes / extensions of entity names; a watchdog per transition (a hang is a violation)',
-    'C14': '8 id patterns, a different one per file (49 pairs); aggregates of SELECTs and typed select values holding aggregates of references; the files named identically in different directories, relatively, and one file appended to itself; references through a redeclared attribute; id patterns with a gap before the last instance',
+    'C14': '8 id patterns, a different one per file (49 pairs); aggregates of SELECTs and typed select values holding aggregates of references; the files named identically in different directories, relatively, and one file appended to itself; references through a redeclared attribute; id patterns with a gap before the last instance; comments around the references inside aggregates and selects',
     'C15': 'the unset marker in 8 lexical dresses; the other attribute of a two-attribute entity at every literal alternative; two unset attributes in one instance; the required STRING attributes of the HEADER entities; every spelling of the reference tool\'s options (-is, -ts, -i -s ...); every case also read by the STEPfile constructor',
-    'C16': 'every history also with the loads going into the saving session itself; populations with a comment on every instance; optional header entities; string values containing ; ) \' and instance-like text in deleted instances; an operation that fails (missing file) between building and saving the session; a prior session with more header entities loaded first; histories in which a deleted instance is still referred to (first, middle, last element of an aggregate, with and without an attribute behind it; stability over two save/load cycles)',
+    'C16': 'every history also with the loads going into the saving session itself; populations with a comment on every instance; optional header entities; string values containing ; ) \' and instance-like text in deleted instances; an operation that fails (missing file) between building and saving the session; a prior session with more header entities loaded first; histories in which a deleted instance is still referred to (first, middle, last element of an aggregate, with and without an attribute behind it; stability over two save/load cycles); a working-session file appended to a loaded session (4 x 4 id patterns x states)',
     'C17': 'names of every length 60-100 (thorough 1-140); order-dependent shapes (select with a renamed enumeration, pure extension schemas) under every assignment of names; renamed select names under every assignment; an attribute name declared in two supertypes and redeclared with a group qualifier',
     'C18': 'inverse/derived attributes in (transitive, second) supertypes; defined-type chains under every permutation of names; all inheritance graphs on 4 entities; keyword-named select members; '
            'the generator\'s base-class order rule stated exactly; order-dependent shapes and extension schemas (shared with C17); entities with 4 and 5 supertypes of different depths in several orders; every Python keyword as entity, type and enumeration-item name; renamed selects',
     'C19': 'a nested aggregate whose base type is a generalisation of the declared one; the same type NAME resolved in two scopes, in both orders, each in a process of its own',
-    'C20': 'a fault in each of three external schema files under every lookup order; bare references to functions with parameters; a wording-to-class reference table for -w/-i; one schema per parametrised diagnostic of the message table (the diagnostic catalogue: 33 triggers); an interfaced item that is missing and renamed; one schema name declared in two files; duplicate declarations of different kinds; a multiply-inheriting entity under -w downcast (no spurious warning); all ordered pairs of two -i switches',
+    'C20': 'a fault in each of three external schema files under every lookup order; bare references to functions with parameters; a wording-to-class reference table for -w/-i; one schema per parametrised diagnostic of the message table (the diagnostic catalogue: 33 triggers); an interfaced item that is missing and renamed; one schema name declared in two files; duplicate declarations of different kinds; a multiply-inheriting entity under -w downcast (no spurious warning); all ordered pairs of two -i switches; circular definitions through nested aggregates; identifiers of 64-256 characters in diagnostics',
 }
 
 PENDING = 'check not built yet (work in progress; see DESIGN.md section 3 for the plan)'
@@ -264,7 +264,7 @@ def main():
             'evidence_file': '/verif/evidence/%s.json' % pid,
             'replay_cmd_template': '/verif/bin/check %s --replay {path}' % pid,
             'engine': 'E-input/E-hist explorers',
-            'level_claimed': {'category': 'model_checking', 'text': c['text'] + ((' Extended after four rounds of independently seeded changes (DESIGN.md 9.3) by: ' + EXTENDED[pid] + '.') if pid in EXTENDED else ''),
+            'level_claimed': {'category': 'model_checking', 'text': c['text'] + ((' Extended after five rounds of independently seeded changes (DESIGN.md 9.3) by: ' + EXTENDED[pid] + '.') if pid in EXTENDED else ''),
                               'design_ref': 'DESIGN.md section ' + c['ref'] + ' and 9.3'},
             'level_note': c['note'],
             'technique': c['technique'],
